@@ -16,19 +16,16 @@ theorem enc1 (n : Nat) : encInt true 1 n = [Spec.MPEG.byte n] := by
 
 /-! ### MPEGAdaptionExtension -/
 
-/-- Layout of the extension against ISO 13818-1: flags byte and parts are the standard's; the
-    length byte is the standard's value PLUS ONE (the library counts the length byte itself, and
-    its decoder uses the same convention).  Full statement (`pack = Spec.afExtension`) is false:
-    see the `example` below and notes/mpeg.md, observation E1. -/
-theorem Ext_pack_layout_partial (e : Ext) (h : Ext_WF e) :
-    ∃ body, Spec.MPEG.afExtension (part e.ltw) (part e.piecewise) (part e.seamless_splice)
-        = Spec.MPEG.byte body.length :: body ∧
-      (Ext.pack e).2 = .ok (Spec.MPEG.byte (body.length + 1) :: body) := by
+/-- **Ext.pack_layout** (full strength, against the layout the code implements):
+    `MPEGAdaptionExtension.pack` emits exactly `Spec.MPEG.extensionAsCoded` — length byte counting
+    itself and everything after it, flags byte (ltw / piecewise / seamless, five reserved bits set),
+    then the parts in ISO order — for every well-formed extension (each part absent or of its size). -/
+theorem Ext_pack_layout (e : Ext) (h : Ext_WF e) :
+    (Ext.pack e).2 = .ok (Spec.MPEG.extensionAsCoded (part e.ltw) (part e.piecewise) (part e.seamless_splice)) := by
   rw [Ext_pack_eq e h]
   obtain ⟨h1, h2, h3⟩ := h
-  refine ⟨_, rfl, ?_⟩
-  simp only [Ext_bytes, enc1, part_optB, List.length_cons, List.length_append, Ext_len, Ext_flags, List.cons_append,
-    List.nil_append]
+  simp only [Spec.MPEG.extensionAsCoded, Spec.MPEG.afExtensionBody, Ext_bytes, enc1, part_optB, List.length_cons,
+    List.length_append, Ext_len, Ext_flags, List.cons_append, List.nil_append]
   have e1 : (part e.ltw).isSome = (e.ltw.length == 2) := by
     unfold part; rcases h1 with h1 | h1 <;> simp [h1]
   have e2 : (part e.piecewise).isSome = (e.piecewise.length == 3) := by
@@ -43,10 +40,41 @@ theorem Ext_pack_layout_partial (e : Ext) (h : Ext_WF e) :
       (e.seamless_splice.length == 5).toNat * 32 + 31 := by omega
   rw [a1, a2]
 
-/-- the deviation is real: an extension carrying only an LTW field is emitted as `04 9F l1 l2`,
-    ISO 13818-1 says `03 9F l1 l2` -/
+/-- **the deviation from ISO 13818-1, exactly** (observation E1): for all parts, the coded extension
+    and the ISO extension have the same body (flags byte and parts); ISO's length byte is the number
+    `n` of body bytes, the library's is `n + 1`.  (`byte` reduces mod 256, so this is literally
+    "first byte + 1, rest identical" for every input.) -/
+theorem Ext_asCoded_iso_plus_one (ltw pw ss : Option Bytes) :
+    ∃ n body, n = body.length ∧
+      Spec.MPEG.afExtension ltw pw ss = Spec.MPEG.byte n :: body ∧
+      Spec.MPEG.extensionAsCoded ltw pw ss = Spec.MPEG.byte (n + 1) :: body :=
+  ⟨_, _, rfl, rfl, rfl⟩
+
+/-- … hence the two layouts are never equal: no extension the library emits is ISO-conformant -/
+theorem Ext_asCoded_ne_iso (ltw pw ss : Option Bytes) :
+    Spec.MPEG.extensionAsCoded ltw pw ss ≠ Spec.MPEG.afExtension ltw pw ss := by
+  intro h
+  simp only [Spec.MPEG.extensionAsCoded, Spec.MPEG.afExtension, List.cons.injEq, and_true, Spec.MPEG.byte] at h
+  have := congrArg UInt8.toNat h
+  simp only [UInt8.toNat_ofNat'] at this
+  omega
+
+/-- `pack` against the ISO layout: same body, length byte = ISO's value + 1 (corollary of
+    `Ext_pack_layout` and `Ext_asCoded_iso_plus_one`; the statement `pack = Spec.afExtension` is false
+    for every extension by `Ext_asCoded_ne_iso`) -/
+theorem Ext_pack_vs_iso (e : Ext) (h : Ext_WF e) :
+    ∃ body, Spec.MPEG.afExtension (part e.ltw) (part e.piecewise) (part e.seamless_splice)
+        = Spec.MPEG.byte body.length :: body ∧
+      (Ext.pack e).2 = .ok (Spec.MPEG.byte (body.length + 1) :: body) :=
+  ⟨_, rfl, Ext_pack_layout e h⟩
+
+/-- witness: an extension carrying only an LTW field is emitted as `04 9F l1 l2`, ISO 13818-1 says
+    `03 9F l1 l2`; and the library's decoder, given the ISO-conformant bytes, truncates the part
+    (`payload = buffer[:_len]` with ISO's smaller length) -/
 example : (Ext.pack { Ext.fresh with ltw := [1, 2] }).2 = .ok [4, 0x9F, 1, 2] ∧
-    Spec.MPEG.afExtension (some [1, 2]) none none = [3, 0x9F, 1, 2] := ⟨rfl, rfl⟩
+    Spec.MPEG.extensionAsCoded (some [1, 2]) none none = [4, 0x9F, 1, 2] ∧
+    Spec.MPEG.afExtension (some [1, 2]) none none = [3, 0x9F, 1, 2] ∧
+    (Ext.unpack Ext.fresh [3, 0x9F, 1, 2]).1.ltw = [1] := ⟨rfl, rfl, rfl, by decide⟩
 
 /-- round trip into an object in ANY prior state, with anything after the extension: same parts,
     flags say which are present, all bytes of the extension consumed, re-encode reproduces the bytes -/
@@ -334,5 +362,106 @@ theorem MPEGTS_roundtrip (t : TS) (ps : List Pkt) (hwf : ∀ p ∈ ps, Pkt_WF p 
     have := ih (fun q hq => hwf q (by simp [hq]))
     simp only [List.flatMap_cons, List.length_append, List.length_cons, this, Pkt_bytes_length]
     unfold Fits188 at hf; omega
+
+/-- **MPEGTS round trip for a stream of N packets, arbitrary N**: `MPEGTS.pack` of N well-formed packets
+    emits N·188 bytes (the packets in order); `MPEGTS.unpack` of those bytes — into an object in any
+    prior state — gives exactly N blocks, the k-th being the decoded k-th packet; re-encoding the
+    decoded stream never fails, and reproduces the bytes when the format can express every packet
+    (no payload with adaptation control 0 or 2) -/
+theorem MPEGTS_roundtrip_n (t : TS) (ps : List Pkt) (hwf : ∀ p ∈ ps, Pkt_WF p ∧ p.sync = 0x47 ∧ Fits188 p ∧
+      (p.adaption_ctrl = 2 → p.adaption_field.isSome = true)) :
+    ∃ b, (TS.pack { blocks := ps }).2 = .ok b ∧ b.length = 188 * ps.length ∧
+      TS.unpack t b = ({ blocks := ps.map Pkt_decoded }, .ok true) ∧
+      (ps.map Pkt_decoded).length = ps.length ∧
+      (∃ b', (TS.pack { blocks := ps.map Pkt_decoded }).2 = .ok b' ∧ b'.length = 188 * ps.length) ∧
+      ((∀ p ∈ ps, (p.adaption_ctrl = 0 ∨ p.adaption_ctrl = 2) → p.payload = []) →
+        (TS.pack { blocks := ps.map Pkt_decoded }).2 = .ok b) := by
+  obtain ⟨hu, hl⟩ := MPEGTS_roundtrip t ps hwf
+  have hw : ∀ p ∈ ps, Pkt_WF p := fun p hp => (hwf p hp).1
+  have hwd : ∀ q ∈ ps.map Pkt_decoded, Pkt_WF q := by
+    intro q hq
+    obtain ⟨p, hp, rfl⟩ := List.mem_map.mp hq
+    exact (Pkt_decoded_bytes p (hwf p hp).1 (hwf p hp).2.2.1).1
+  have hlen : ∀ qs : List Pkt, (∀ q ∈ qs, Pkt_used q ≤ 188) → (qs.flatMap Pkt_bytes).length = 188 * qs.length := by
+    intro qs hq
+    induction qs with
+    | nil => rfl
+    | cons q qs ih =>
+      have := hq q (by simp)
+      simp only [List.flatMap_cons, List.length_append, List.length_cons, ih (fun x hx => hq x (by simp [hx])),
+        Pkt_bytes_length]
+      omega
+  have hused : ∀ q ∈ ps.map Pkt_decoded, Pkt_used q ≤ 188 := by
+    intro q hq
+    obtain ⟨p, hp, rfl⟩ := List.mem_map.mp hq
+    obtain ⟨hwp, _, hf, _⟩ := hwf p hp
+    have haf := Pkt_af_decoded p hwp
+    unfold Fits188 at hf
+    unfold Pkt_used at hf ⊢
+    rw [haf]
+    by_cases hc : p.adaption_ctrl = 1 ∨ p.adaption_ctrl = 3
+    · have : (Pkt_decoded p).payload = p.payload ++ Pkt_stuffing p := by simp [Pkt_decoded, hc]
+      rw [this]; simp [Pkt_stuffing, Pkt_used]; omega
+    · have : (Pkt_decoded p).payload = [] := by simp [Pkt_decoded, hc]
+      rw [this]; simp; omega
+  have hl' : ((ps.map Pkt_decoded).flatMap Pkt_bytes).length = 188 * ps.length := by
+    rw [hlen _ hused, List.length_map]
+  have hp1 : (TS.pack { blocks := ps }).2 = .ok (ps.flatMap Pkt_bytes) := by
+    simp only [TS.pack, packBlocks_eq ps hw]
+  have hp2 : (TS.pack { blocks := ps.map Pkt_decoded }).2 = .ok ((ps.map Pkt_decoded).flatMap Pkt_bytes) := by
+    simp only [TS.pack, packBlocks_eq _ hwd]
+  refine ⟨ps.flatMap Pkt_bytes, hp1, hl, hu, List.length_map _, ⟨_, hp2, hl'⟩, ?_⟩
+  intro hpl
+  rw [hp2, flatMap_decoded_bytes ps (fun p hp => ⟨(hwf p hp).1, (hwf p hp).2.2.1, hpl p hp⟩)]
+
+/-- **TS.reencode_ok** (the splice-countdown fix, D07): whatever optional parts a well-formed packet
+    carries — in particular a splice countdown, which the decoder stores as the integer read from the
+    byte — `MPEGPacket.pack` of the DECODED packet does not raise, emits 188 bytes, and the decoded
+    countdown is the encoded integer.  (For buffers that are not the encoding of a well-formed packet
+    the decoded adaptation field can hold a truncated PCR or extension part, for which `pack` raises
+    its own bare `Exception`; that is input validation, not the D07 `TypeError`.) -/
+theorem TS_reencode_ok (p t q : Pkt) (b : Bytes) (h : Pkt_WF p) (hs : p.sync = 0x47) (hf : Fits188 p)
+    (h2af : p.adaption_ctrl = 2 → p.adaption_field.isSome = true)
+    (hb : (Pkt.pack p).2 = .ok b) (hq : Pkt.unpack t b = (q, .ok ())) :
+    (∃ b', (Pkt.pack q).2 = .ok b' ∧ b'.length = 188) ∧
+    (∀ a, hasAF p → p.adaption_field = some a →
+      ∃ a', q.adaption_field = some a' ∧ a'.splice_countdown = a.splice_countdown) := by
+  rw [Pkt_pack_eq' p false h] at hb
+  simp only [Bool.false_eq_true, if_false, Except.ok.injEq] at hb
+  subst hb
+  rw [Pkt_unpack_bytes p t h hs h2af] at hq
+  simp only [Prod.mk.injEq, and_true] at hq
+  subst hq
+  obtain ⟨hw, _⟩ := Pkt_decoded_bytes p h hf
+  refine ⟨⟨Pkt_bytes (Pkt_decoded p), by rw [Pkt_pack_eq' _ false hw]; rfl, ?_⟩, ?_⟩
+  · rw [Pkt_bytes_length]
+    have haf := Pkt_af_decoded p h
+    unfold Fits188 at hf
+    unfold Pkt_used at hf ⊢
+    rw [haf]
+    by_cases hc : p.adaption_ctrl = 1 ∨ p.adaption_ctrl = 3
+    · have : (Pkt_decoded p).payload = p.payload ++ Pkt_stuffing p := by simp [Pkt_decoded, hc]
+      rw [this]; simp [Pkt_stuffing, Pkt_used]; omega
+    · have : (Pkt_decoded p).payload = [] := by simp [Pkt_decoded, hc]
+      rw [this]; simp; omega
+  · intro a haf ha
+    exact ⟨AF_packed a, by simp [Pkt_decoded, haf, ha], rfl⟩
+
+/-- a packet with a splice countdown (and PCR, private data, stuffing) satisfying the hypotheses of
+    `TS_reencode_ok`, and two of them those of `MPEGTS_roundtrip_n` -/
+def examplePktSplice : Pkt :=
+  { Pkt.fresh with
+    pid := 0x104, adaption_ctrl := 3, continuitycounter := 3, payload := [1, 2, 3],
+    adaption_field := some { AF.fresh with pcr := [1, 2, 3, 4, 5, 6], splice_countdown := 7,
+                                           private_data := [0xAA], length := 100 } }
+
+example : Pkt_WF examplePktSplice ∧ Fits188 examplePktSplice ∧ examplePktSplice.sync = 0x47 ∧
+    (examplePktSplice.adaption_ctrl = 2 → examplePktSplice.adaption_field.isSome = true) := by
+  refine ⟨⟨by decide, by decide, by decide, by decide, by decide, by decide, ?_⟩, by decide, by decide, by decide⟩
+  intro a ha
+  injection ha with ha
+  subst ha
+  refine ⟨by decide, by decide, by decide, by decide, ?_, by decide, by decide, by decide, by decide, by decide, by decide⟩
+  intro x hx; simp [AF.fresh] at hx
 
 end Acra.Props.C06
